@@ -80,8 +80,16 @@ func applyPatch(doc document.Document, p patch.Patch) (document.Document, error)
 	return nil, fmt.Errorf("action '%s' is not supported", action)
 }
 
-func applyJSON(doc document.Document, entry interface{}) (document.Document, error) {
+func applyJSON(doc document.Document, entry interface{}) (result document.Document, err error) {
 	logger.Debug("Applying JSON patch", logfields.WithPatch(entry))
+
+	// the JSON patch library panics on some malformed patches (e.g. negative array indexes)
+	defer func() {
+		if r := recover(); r != nil {
+			result = nil
+			err = fmt.Errorf("failed to apply JSON patch: %v", r)
+		}
+	}()
 
 	bytes, err := json.Marshal(entry)
 	if err != nil {
